@@ -198,11 +198,15 @@ def build_ops(case, cb):
         pts = np.array(blk["pts"], dtype=float)
         op = cb.Loft(cb.Face(pts[:4]), cb.Face(pts[4:]))
         for e in hexconv.EDGES:
-            key = "-".join(str(n) for n in sorted((blk["nodes"][e[0]], blk["nodes"][e[1]])))
+            if not arcs:
+                break
+            key = "-".join(str(n) for n in sorted((blk["nodes"][e[0]], blk["nodes"][e[1]]), key=str))
             if key in arcs:
                 set_edge(op, e[0], e[1], cb.Arc(list(arcs[key])))
         for axis, kw in blk["chops"]:
             op.chop(axis, **kw)
+        for side, name in (blk.get("patches") or {}).items():
+            op.set_patch(side, name)
         ops.append(op)
     return ops
 
@@ -212,7 +216,33 @@ def build_mesh(case, cb):
     ops = build_ops(case, cb)
     for op in ops:
         mesh.add(op)
+    for master, slave in case.get("merges") or []:
+        mesh.merge_patches(master, slave)
     return mesh, ops
+
+
+def add_merged_pair(rng, case):
+    """declare one face contact as a face-merged pair (master side / slave side). The slave-side corners get their own
+    vertex copies, so for the reference model they are different nodes: the count families are cut there."""
+    blocks = case["blocks"]
+    contacts = []
+    for x in range(len(blocks)):
+        for y in range(len(blocks)):
+            if x != y:
+                common = set(blocks[x]["nodes"]) & set(blocks[y]["nodes"])
+                if len(common) == 4:
+                    contacts.append((x, y, common))
+    if not contacts:
+        return False
+    x, y, common = rng.choice(contacts)
+    sx = [n for n, c in hexconv.SIDES.items() if {blocks[x]["nodes"][k] for k in c} == common][0]
+    sy = [n for n, c in hexconv.SIDES.items() if {blocks[y]["nodes"][k] for k in c} == common][0]
+    blocks[x].setdefault("patches", {})[sx] = "mM"
+    blocks[y].setdefault("patches", {})[sy] = "mS"
+    case["merges"] = [["mM", "mS"]]
+    # vertex identity on the slave side: (node, slave patches at that corner); only block y carries patch mS
+    blocks[y]["nodes"] = [f"{n}|mS" if k in hexconv.SIDES[sy] else n for k, n in enumerate(blocks[y]["nodes"])]
+    return True
 
 
 def file_edge_counts(parsed):
